@@ -70,6 +70,8 @@ def read_known():
 
 
 def native_replay(prop, contract, failed, outdir, hint_models):
+    if os.environ.get("REPO", "/repo") != "/repo" and "pyvc_selftest_" in os.environ.get("REPO", ""):
+        outdir = os.path.join(os.path.dirname(os.environ["REPO"]), "replay", prop)
     """small-scope search on the real code for a failing input of this contract.
     Returns (replay_path, found: bool, detail)."""
     os.makedirs(outdir, exist_ok=True)
@@ -125,12 +127,42 @@ def run_replay_file(prop, path):
     return 0
 
 
+def mutation_self_test(prop):
+    """thorough tier: apply every committed seeded change of this property to a scratch copy of the repository (never to
+    /repo), run the quick check against the copy and record whether it reports a violation; the copies are removed."""
+    import glob, shutil, tempfile
+    out = []
+    for meta_path in sorted(glob.glob(os.path.join(HERE, "seeded", "*", "meta.json"))):
+        meta = json.load(open(meta_path))
+        if meta.get("breaks_property") != prop or "neutralised" in meta.get("status_on_current_head", ""):
+            continue
+        d = os.path.dirname(meta_path)
+        tmp = tempfile.mkdtemp(prefix="pyvc_selftest_")
+        try:
+            scratch = os.path.join(tmp, "repo")
+            shutil.copytree(REPO, scratch, ignore=shutil.ignore_patterns(".git", "__pycache__", "*.pyc", ".coverage", "docs", "images", "examples"))
+            a = subprocess.run(["patch", "-p1", "-s", "-i", os.path.join(d, "patch.diff")], cwd=scratch, stdout=subprocess.PIPE, stderr=subprocess.STDOUT, text=True)
+            if a.returncode != 0:
+                out.append({"seed": meta["id"], "detected": None, "note": "patch does not apply to the current tree"})
+                continue
+            ev_tmp = os.path.join(tmp, "evidence.json")
+            p = subprocess.run([sys.executable, os.path.join(HERE, "vcheck.py"), prop, "--tier", "quick", "--child-evidence", ev_tmp],
+                               cwd=HERE, env=dict(os.environ, REPO=scratch, VERIF_TIER="quick"), stdout=subprocess.PIPE, stderr=subprocess.STDOUT, text=True)
+            viol = [l for l in p.stdout.splitlines() if l.startswith("VIOLATION")]
+            out.append({"seed": meta["id"], "detected": p.returncode == 1 and bool(viol), "exit": p.returncode,
+                        "first_violation": (viol[0][:200] if viol else None)})
+        finally:
+            shutil.rmtree(tmp, ignore_errors=True)
+    return {"seeded_changes": len(out), "detected": sum(1 for o in out if o["detected"]), "results": out}
+
+
 def main():
     ap = argparse.ArgumentParser()
     ap.add_argument("prop")
     ap.add_argument("--tier", default=os.environ.get("VERIF_TIER", "quick"))
     ap.add_argument("--replay")
     ap.add_argument("--only", help="restrict to one contract name (debugging)")
+    ap.add_argument("--child-evidence", help="(internal) write the evidence file here instead of evidence/<id>.json")
     ap.add_argument("-v", action="store_true")
     args = ap.parse_args()
     seed = int(os.environ.get("VERIF_SEED", "0") or 0)
@@ -160,7 +192,7 @@ def main():
 def check_property(prop, cs, args, seed, lock, write_lock=False):
     t0 = time.time()
     mine = [c for c in cs.values() if prop in c.props and (not args.only or c.name == args.only)]
-    evidence_path = os.path.join(HERE, "evidence", "%s.json" % prop)
+    evidence_path = args.child_evidence or os.path.join(HERE, "evidence", "%s.json" % prop)
     if not mine:
         print("no contracts registered for", prop)
         return 3
@@ -391,6 +423,8 @@ def check_property(prop, cs, args, seed, lock, write_lock=False):
     ev["coverage"]["evaluations"] = len(obligations) + nb_cases + sum(int(t.get("rows") or 0) for t in extra["tables"])
     ev["coverage"]["distinct_nontrivial"] = len(groups) + nb_cases
     ev["coverage"]["rule"] = "obligation groups (distinct cut point x clause x contract mode) + bounded stand-in cases (each a distinct input shape / parameter point)"
+    if args.tier == "thorough" and not args.child_evidence and not violations and rc == 0:
+        ev["coverage"]["mutation_self_test"] = mutation_self_test(prop)
     os.makedirs(os.path.dirname(evidence_path), exist_ok=True)
     with open(evidence_path, "w") as f:
         json.dump(ev, f, indent=1, default=str)
